@@ -59,11 +59,9 @@ func (o ObjectAndFilterResult) Map() map[string]interface{} {
 	}
 
 	var filterResultValue interface{}
-	if o.Metadata.JqFilter != "" {
-		// jqFilter is set, so filterResult field should be in a map.
-		// FilterResult is a jq output and should be a string.
-		filterResString, ok := o.FilterResult.(string)
-		if !ok || filterResString == "" {
+	if filterResString, ok := o.FilterResult.(string); ok && o.Metadata.JqFilter != "" {
+		// jqFilter is set and FilterResult is a jq output in a form of a JSON string.
+		if filterResString == "" {
 			m["filterResult"] = nil
 			return m
 		}
@@ -78,6 +76,7 @@ func (o ObjectAndFilterResult) Map() map[string]interface{} {
 			return m
 		}
 	} else {
+		// FilterResult is an already decoded jq output or a result of the filter function.
 		filterResultValue = o.FilterResult
 	}
 
